@@ -17,6 +17,7 @@ Idx(P, pred(_)) == {j \in DOMAIN P.ev : pred(P.ev[j])}
 
 \* nesting depth of event j in the walk (0 = a top-level declaration)
 Depth(P, j) == Count({i \in 1..(j - 1) : P.ev[i].ev = "Enter"}) - Count({i \in 1..(j - 1) : P.ev[i].ev = "Exit"})
+NoRet(sig) == sig.declared_ret = <<>> \/ (sig.declared_ret[1].k = "C" /\ sig.declared_ret[1].n = "Void")
 IsGeneric(P, c) == c \in DOMAIN P.ct /\ P.ct[c].tp # <<>>
 \* which fact kinds a language expresses (the others are not judged for it)
 Expresses(lang, kind) ==
@@ -28,6 +29,8 @@ Expresses(lang, kind) ==
     \* (a Java field cannot omit its type - not judged; a Java local can: "var")
     [] kind = "var_untyped_local" -> lang \in {"java", "groovy"}
     [] kind = "var_untyped_top" -> lang = "groovy"
+    \* Groovy prints a local function as a closure: "def f = { .. }" when it declares no (or a void) return type, "Closure<T> f = { .. }" otherwise
+    [] kind \in {"closure_untyped", "closure_typed"} -> lang = "groovy"
     [] OTHER -> FALSE
 
 Expected(P, kind, name) ==
@@ -38,6 +41,8 @@ Expected(P, kind, name) ==
     [] kind = "var_untyped" -> Count(Idx(P, LAMBDA e : e.ev = "VarDecl" /\ e.name = name /\ e.vt = <<>>))
     [] kind = "var_untyped_top" -> Count({j \in Idx(P, LAMBDA e : e.ev = "VarDecl" /\ e.name = name /\ e.vt = <<>>) : Depth(P, j) = 0})
     [] kind = "var_untyped_local" -> Count({j \in Idx(P, LAMBDA e : e.ev = "VarDecl" /\ e.name = name /\ e.vt = <<>>) : Depth(P, j) > 0})
+    [] kind = "closure_untyped" -> Count(Idx(P, LAMBDA e : e.ev = "Exit" /\ e.kind = "Fun" /\ e.name = name /\ e.owner = "local" /\ NoRet(e.sig)))
+    [] kind = "closure_typed" -> Count(Idx(P, LAMBDA e : e.ev = "Exit" /\ e.kind = "Fun" /\ e.name = name /\ e.owner = "local" /\ ~NoRet(e.sig)))
     [] kind = "new_inferred" -> Count(Idx(P, LAMBDA e : e.ev = "New" /\ e.t.n = name /\ e.t.a # <<>> /\ e.infer))
     [] kind = "str" -> Count(Idx(P, LAMBDA e : e.ev = "Const" /\ e.lit = "string" /\ e.text = name))
     [] kind = "balanced" -> 1
@@ -50,6 +55,8 @@ Probes(P) ==
   \cup {<<"var_untyped", P.ev[j].name>> : j \in Idx(P, LAMBDA e : e.ev = "VarDecl")}
   \cup {<<"var_untyped_top", P.ev[j].name>> : j \in {i \in Idx(P, LAMBDA e : e.ev = "VarDecl") : Depth(P, i) = 0}}
   \cup {<<"var_untyped_local", P.ev[j].name>> : j \in {i \in Idx(P, LAMBDA e : e.ev = "VarDecl") : Depth(P, i) > 0}}
+  \cup {<<"closure_untyped", P.ev[j].name>> : j \in Idx(P, LAMBDA e : e.ev = "Exit" /\ e.kind = "Fun" /\ e.owner = "local")}
+  \cup {<<"closure_typed", P.ev[j].name>> : j \in Idx(P, LAMBDA e : e.ev = "Exit" /\ e.kind = "Fun" /\ e.owner = "local")}
   \cup {<<"new_inferred", P.ev[j].t.n>> : j \in Idx(P, LAMBDA e : e.ev = "New" /\ e.t.a # <<>>)}
   \cup {<<"str", P.ev[j].text>> : j \in Idx(P, LAMBDA e : e.ev = "Const" /\ e.lit = "string")}
   \cup {<<"balanced", "">>}
